@@ -17,13 +17,13 @@ EXPLANATION = (
     "4+len bytes of the concatenated record payloads, None iff incomplete, ValueError iff a non-handshake or empty record comes first), "
     "stability under appended bytes and under truncation (so splitting across records and segments cannot change the result), "
     "parse_client_hello raises only ValueError, ClientTLSLayer.receive_handshake_data accumulates recv_buffer and is silent while the "
-    "hello is incomplete. The unrolled scenarios cover hellos spanning up to 3 records (record sizes symbolic). Equality of SNI/ALPN/"
+    "hello is incomplete. The inductive machine-step scenarios cover any number of records; the natively replayable twins are unrolled to 2 records (record sizes symbolic). Equality of SNI/ALPN/"
     "cipher suites/extensions with an independent RFC 8446 parser, hellos in many records, and the kaitai parser's totality are "
     "bounded (T2)."
 )
 ASSUMPTIONS = [
     "trusted library contract: constructing mitmproxy.tls.ClientHello (kaitai TlsClientHello/DtlsClientHello over the bytes) either returns or raises EOFError; checked bounded in T2 on mutated and random inputs",
-    "get_client_hello / parse_client_hello / the relational scenarios unroll the record loop 3 times: hellos spanning more than 3 records are covered by the inductive step contract of handshake_record_contents and by T2 only",
+    "the reference / stability twins unroll the record loop (TLS: 2 records, DTLS stability: 1 record; parse_client_hello: 1 record): more records are covered by the inductive machine-step contracts (any number of records) and by T2",
     "L-SEG (paper lemma): (N) no-op on incomplete input with recv_buffer' = recv_buffer ++ data, plus (P)/(M) stability of get_client_hello under extension/truncation, give segmentation independence by induction on the number of segments",
     "ClientHello.sni / alpn_protocols (kaitai attribute walks, regex host validation) are out of T1 reach: compared with an independent parser in T2",
 ]
@@ -71,6 +71,55 @@ def s_dtls_magic(vc):
 
 # ---------------------------------------------------------------------------------------------
 # reference reader for the record layer (TLS: header 5, version check above; DTLS: header 13)
+
+
+def header_predicate_uf(name):
+    def f(vc, d):
+        import z3
+        from pyvc import lib
+        return SBool(lib.uf(name, z3.StringSort(), z3.BoolSort())(d.t))
+    return f
+
+
+def abstract_header_predicate(vc, dtls):
+    """proof mode: starts_like_(d)tls_record has its own contract (above); in the record-reader scenarios it is an
+    uninterpreted predicate of the header bytes (natively the real predicate runs; counter-models / conformance samples are
+    taken from the candidate inputs below with the real predicate as oracle, see pyvc/libx_tls.py)"""
+    if vc.mode == "sym":
+        vc.summary(N + (":starts_like_dtls_record" if dtls else ":starts_like_tls_record"),
+                   header_predicate_uf("dtls_record_header_accepted" if dtls else "tls_record_header_accepted"))
+
+
+def _rec(payload, dtls, ver=None, typ=22):
+    if dtls:
+        return bytes([typ]) + (ver or b"\xfe\xfd") + b"\x00\x00\x00\x00\x00\x00\x00\x01" + len(payload).to_bytes(2, "big") + payload
+    return bytes([typ]) + (ver or b"\x03\x01") + len(payload).to_bytes(2, "big") + payload
+
+
+def _hs(body, dtls):
+    if dtls:
+        return b"\x01" + len(body).to_bytes(3, "big") + b"\x00\x00" + b"\x00\x00\x00" + len(body).to_bytes(3, "big") + body
+    return b"\x01" + len(body).to_bytes(3, "big") + body
+
+
+def stream_candidates(dtls):
+    """concrete record streams used to obtain replayable models (all outcome classes of the reference reader)"""
+    R = lambda p, **k: _rec(p, dtls, **k)
+    h = _hs(b"abcdef", dtls)
+    hl = 12 if dtls else 4
+    out = [b"", R(b"x")[:2], R(b"x")[:len(R(b"")) - 1], R(h), R(h) + b"tail", R(h + b"XX"), R(h[:2]) + R(h[2:]), R(h[:hl]) + R(h[hl:]), R(h[:hl + 2]) + R(h[hl + 2:]) + R(b"zz"),
+           R(h, typ=23), R(h, ver=b"\x04\x00"), R(h, ver=b"\xfe\xff"), R(h, ver=b"\x03\x04"), R(b""), R(h)[:-1], R(h[:3]), R(h[:3]) + R(b"", typ=22),
+           R(h[:hl + 1]) + R(h[hl + 1:], typ=21), R(h[:hl + 1]) + R(b""), R(h[:hl + 1]) + R(h[hl + 1:])[:-2], R(h[:1]) + R(h[1:2]) + R(h[2:]), R(h[:hl + 1]), b"GET / HTTP/1.1\r\n"]
+    return out
+
+
+def cands_data(dtls):
+    return [{"data": x} for x in stream_candidates(dtls)]
+
+
+def cands_pairs(dtls):
+    tails = [b"", b"\x00", _rec(b"zz", dtls), _rec(b"zz", dtls)[:2], b"\xff" * 20]
+    return [{"d": x, "s": t} for x in stream_candidates(dtls) for t in tails]
 
 
 def hdr_ok(vc, data, off, dtls):
@@ -169,6 +218,7 @@ for _dtls in (False, True):
     _gen = L + (":dtls_handshake_record_contents" if _dtls else ":handshake_record_contents")
 
     def _s_get(vc, _dtls=_dtls, _fn=_fn):
+        abstract_header_predicate(vc, _dtls)
         data = vc.sym_bytes("data")
         out = vc.call(_fn, data)
         ref = reference_hello(vc, data, _dtls)
@@ -177,10 +227,11 @@ for _dtls in (False, True):
         check_against_reference(vc, out, ref, data)
 
     scenario(("dtls." if _dtls else "tls.") + "get_client_hello.reference", functions=[_fn, _gen, N + (":starts_like_dtls_record" if _dtls else ":starts_like_tls_record")],
-             lazy_generators=True, pc_slices=True, inbounds_lengths=True, max_unroll=2)(_s_get)
+             lazy_generators=True, pc_slices=True, inbounds_lengths=True, max_unroll=2, candidates=cands_data(_dtls))(_s_get)
 
     def _s_prefix(vc, _dtls=_dtls, _fn=_fn):
         """(P) a complete hello is not changed by any bytes that follow (later records, the next segment)."""
+        abstract_header_predicate(vc, _dtls)
         d = vc.sym_bytes("d")
         s = vc.sym_bytes("s")
         o1 = vc.call(_fn, d)
@@ -195,11 +246,12 @@ for _dtls in (False, True):
         if not isnone(o2.result):
             vc.ensure("P.same_hello", o2.result == o1.result)
 
-    scenario(("dtls." if _dtls else "tls.") + "get_client_hello.stable_under_extension", functions=[_fn, _gen], lazy_generators=True, pc_slices=True, inbounds_lengths=True, max_unroll=2)(_s_prefix)
+    scenario(("dtls." if _dtls else "tls.") + "get_client_hello.stable_under_extension", functions=[_fn, _gen], lazy_generators=True, pc_slices=True, inbounds_lengths=True, max_unroll=1 if _dtls else 2, candidates=cands_pairs(_dtls))(_s_prefix)
 
     def _s_trunc(vc, _dtls=_dtls, _fn=_fn):
         """(M) a stream that is rejected stays rejected whatever follows; contrapositive: no prefix of a stream with a complete
         hello is ever rejected, i.e. every prefix is incomplete or (by (P)) already gives the same hello."""
+        abstract_header_predicate(vc, _dtls)
         d = vc.sym_bytes("d")
         s = vc.sym_bytes("s")
         o1 = vc.call(_fn, d)
@@ -209,7 +261,7 @@ for _dtls in (False, True):
         o2 = vc.call(_fn, d + s)
         vc.ensure("M.rejected_stays_rejected", is_value_error(o2))
 
-    scenario(("dtls." if _dtls else "tls.") + "get_client_hello.rejection_stable_under_extension", functions=[_fn, _gen], lazy_generators=True, pc_slices=True, inbounds_lengths=True, max_unroll=2)(_s_trunc)
+    scenario(("dtls." if _dtls else "tls.") + "get_client_hello.rejection_stable_under_extension", functions=[_fn, _gen], lazy_generators=True, pc_slices=True, inbounds_lengths=True, max_unroll=1 if _dtls else 2, candidates=cands_pairs(_dtls))(_s_trunc)
 
 
 # ---------------------------------------------------------------------------------------------
@@ -221,6 +273,7 @@ def mk_step_scenario(dtls):
     H = 13 if dtls else 5
 
     def s_step(vc):
+        abstract_header_predicate(vc, dtls)
         data = vc.sym_bytes("data")
         state = {"env": None, "calls": 0, "o0": None}
         yields = []
@@ -286,12 +339,6 @@ def complete(c, dtls):
     return And(len_(c) >= 4, len_(c) >= be24(c, 1) + 4)
 
 
-def header_predicate_uf(vc, d):
-    import z3
-    from pyvc import lib
-    return SBool(lib.uf("record_header_accepted", z3.StringSort(), z3.BoolSort())(d.t))
-
-
 def mk_machine_scenario(dtls):
     fn = L + (":get_dtls_client_hello" if dtls else ":get_client_hello")
     gen = L + (":dtls_handshake_record_contents" if dtls else ":handshake_record_contents")
@@ -336,8 +383,7 @@ def mk_machine_scenario(dtls):
 
         inv.havoc = havoc
         vc.invariant(gen, 1, inv)
-        # the header predicate has its own contract (above): here it is an uninterpreted predicate of the header bytes
-        vc.summary(N + (":starts_like_dtls_record" if dtls else ":starts_like_tls_record"), header_predicate_uf)
+        abstract_header_predicate(vc, dtls)
         out = vc.call(fn, data)
         o0, c0 = st["o0"], st["c0"]
         if o0 is None:
@@ -392,6 +438,7 @@ class NoExtensions:
 def raw_matches(vc, raw, data, pieces, need, skip, tag):
     """raw == (first `need` bytes of the concatenated pieces)[skip:]"""
     if vc.mode == "native":
+        vc.ensure(tag + "body_length", len(raw) == need - skip)
         vc.ensure(tag + "exactly_the_hello_body", bytes(raw) == native_concat(data, pieces)[skip:need])
         return
     vc.ensure(tag + "body_length", len_(raw) == need - skip)
@@ -406,6 +453,7 @@ for _dtls in (False, True):
         CH = _cls("mitmproxy.tls:ClientHello")
         made = []
         vc.summary("mitmproxy.tls:ClientHello", kaitai_contract(vc, CH, made))
+        abstract_header_predicate(vc, _dtls)
         data = vc.sym_bytes("data")
         out = vc.call(_fn, data)
         ref = reference_hello(vc, data, _dtls, max_records=1)
@@ -427,7 +475,7 @@ for _dtls in (False, True):
             else:
                 vc.ensure("complete.returns_the_parsed_hello", out.ok and out.result is made[0][2])
 
-    scenario(("dtls." if _dtls else "tls.") + "parse_client_hello", functions=[_fn], lazy_generators=True, pc_slices=True, inbounds_lengths=True, max_unroll=1)(_s_parse)
+    scenario(("dtls." if _dtls else "tls.") + "parse_client_hello", functions=[_fn], lazy_generators=True, pc_slices=True, inbounds_lengths=True, max_unroll=1, candidates=cands_data(_dtls))(_s_parse)
 
 
 CT = L + ":ClientTLSLayer"
@@ -438,7 +486,7 @@ def mk_client_tls_layer(vc, buf, dtls):
     client = mk_client(vc, transport_protocol="udp" if dtls else "tcp")
     server = mk_server(vc, address=("example.com", 443))
     ctx = mk_context(vc, client, server, mk_options(vc))
-    layer = vc.new(CT, context=ctx, conn=client, tunnel_connection=client, child_layer=None, recv_buffer=buf, client_hello_parsed=False,
+    layer = vc.new(CT, context=ctx, conn=client, tunnel_connection=client, child_layer=None, recv_buffer=buf if vc.mode == "sym" else bytearray(buf), client_hello_parsed=False,
                    server_tls_available=False, tunnel_state=TunnelState.ESTABLISHING, command_to_reply_to=None, _event_queue=vc.list([]),
                    debug=None, _paused=None, _paused_event_queue=None, tls=None)
     return layer, client, server, ctx
@@ -446,28 +494,37 @@ def mk_client_tls_layer(vc, buf, dtls):
 
 def _mk_recv(dtls):
     def s_recv(vc):
-        """One DataReceived segment while waiting for the ClientHello: recv_buffer (incomplete so far) ++ data decides."""
+        """One DataReceived segment while waiting for the ClientHello. Modular: (dtls_)parse_client_hello has its own contract
+        (above); here it is replaced by its three possible outcomes and the glue is checked: it is given exactly
+        recv_buffer ++ data, incomplete => silent and buffered, invalid => error, hello => hook, then OpenSSL gets the
+        whole buffer exactly once."""
         from mitmproxy.connection import ConnectionState
         from props.tlsstub import mk_ssl
         CH = _cls("mitmproxy.tls:ClientHello")
-        made = []
-        vc.summary("mitmproxy.tls:ClientHello", kaitai_contract(vc, CH, made))
         buf = vc.sym_bytes("recv_buffer")
         data = vc.sym_bytes("data")
-        provide_tls = vc.case("addon_provides_ssl_conn", [False, True])
+        outcome = vc.case("parse_outcome", ["incomplete", "invalid", "hello"])
+        provide_tls = vc.case("addon_provides_ssl_conn", [False, True]) if outcome == "hello" else False
+        if outcome == "hello":
+            vc.assume(len_(buf) + len_(data) >= 4)  # parse contract: a hello is only reported for >= 4 (DTLS: 13) buffered bytes
         layer, client, server, ctx = mk_client_tls_layer(vc, buf, dtls)
+        hello = vc.new(CH, _raw_bytes=b"", _client_hello=vc.new("props.C13:NoExtensions"))
+        parsed = []
+
+        def parse_summary(v, arg):
+            parsed.append(arg if v.mode == "sym" else bytes(arg))  # natively a snapshot of the (mutable) buffer
+            if outcome == "invalid":
+                v.raise_(ValueError, "Invalid ClientHello")
+            return None if outcome == "incomplete" else hello
+
+        vc.summary(L + (":dtls_parse_client_hello" if dtls else ":parse_client_hello"), parse_summary)
         server_hello = vc.sym_bytes("server_hello")
         vc.assume(len_(server_hello) > 0)
         ssl = mk_ssl(vc, outbox=[server_hello])
-        hooks = []
 
         def on_yield(cmd):
-            if is_cmd(cmd, "TlsClienthelloHook"):
-                hooks.append(cmd)
-            elif is_cmd(cmd, "TlsStartClientHook"):
-                hooks.append(cmd)
-                if provide_tls:
-                    cmd.data.ssl_conn = ssl
+            if is_cmd(cmd, "TlsStartClientHook") and provide_tls:
+                cmd.data.ssl_conn = ssl
             elif is_cmd(cmd, "CloseConnection"):
                 cmd.connection.state = ConnectionState.CLOSED  # what the proxy server does with the command
 
@@ -476,27 +533,26 @@ def _mk_recv(dtls):
         if not out.ok:
             return
         whole = buf + data
-        ref = reference_hello(vc, whole, dtls, max_records=1)
-        if ref[0] == "beyond":
-            return
         r = out.result
         kinds = trace_kinds(out.trace)
-        if ref[0] == "incomplete":
+        vc.ensure("parser_given_buffer_plus_segment_once", len(parsed) == 1)
+        if len(parsed) == 1:
+            vc.ensure("parser_given_buffer_plus_segment_in_order", parsed[0] == whole)
+        if outcome == "incomplete":
             # (N) silent, buffer accumulates in order, still waiting
             vc.ensure("incomplete.result_not_done_no_error", And(vc.eq(r[0], False), isnone(r[1])))
-            vc.ensure("incomplete.no_commands_no_hook", kinds == [] and len(made) == 0)
+            vc.ensure("incomplete.no_commands_no_hook", kinds == [])
             vc.ensure("incomplete.buffer_accumulates_in_order", layer.recv_buffer == whole)
             vc.ensure("incomplete.still_waiting", vc.eq(layer.client_hello_parsed, False))
             vc.ensure("incomplete.sni_untouched", isnone(client.sni))
             return
-        if ref[0] == "invalid" or len(made[0]) == 2:
+        if outcome == "invalid":
             vc.ensure("invalid.reported_as_error", And(vc.eq(r[0], False), Not(isnone(r[1]))))
             if not isnone(r[1]):
                 vc.ensure("invalid.error_text", startswith(r[1], "Cannot parse ClientHello"))
             vc.ensure("invalid.no_commands_no_hook", kinds == [])
             vc.ensure("invalid.not_parsed", vc.eq(layer.client_hello_parsed, False))
             return
-        hello = made[0][2]
         vc.ensure("complete.parsed_flag", vc.eq(layer.client_hello_parsed, True))
         vc.ensure("complete.clienthello_hook_first", kinds[:1] == ["TlsClienthelloHook"])
         if kinds[:1] != ["TlsClienthelloHook"]:
@@ -519,13 +575,417 @@ def _mk_recv(dtls):
             vc.ensure("tls.connection_is_the_provided_one", layer.tls is ssl)
 
     return scenario(("dtls." if dtls else "tls.") + "ClientTLSLayer.receive_handshake_data", functions=[CT + ".receive_handshake_data", L + ":TLSLayer.receive_handshake_data", L + ":TLSLayer.start_tls", L + ":TLSLayer.tls_interact"],
-                    lazy_generators=True, pc_slices=True, inbounds_lengths=True, max_unroll=1)(s_recv)
+                    max_unroll=3)(s_recv)
 
 
 _mk_recv(False)
 _mk_recv(True)
 
 
+# =============================================================================================
+# T2 (bounded): independent ClientHello writer + reader (RFC 8446 §4.1.2, RFC 6066 §3, RFC 7301 §3.1, RFC 6347 §4.2.1)
+# against mitmproxy.tls.ClientHello / parse_client_hello / ClientTLSLayer, over record splits and segmentations.
+
+
+def _v(n, payload):
+    """opaque<..2^(8n)-1> vector"""
+    return len(payload).to_bytes(n, "big") + payload
+
+
+def build_hello_body(spec, dtls=False):
+    """ClientHello body (without handshake header) from a spec dict: version, session_id, cookie, ciphers, compression, extensions
+    (list of (type, body) or None for 'no extensions block')."""
+    b = spec.get("version", b"\x03\x03") + spec.get("random", bytes(range(32)))
+    b += _v(1, spec.get("session_id", b""))
+    if dtls:
+        b += _v(1, spec.get("cookie", b""))
+    b += _v(2, b"".join(c.to_bytes(2, "big") for c in spec["ciphers"]))
+    b += _v(1, spec.get("compression", b"\x00"))
+    if spec.get("extensions") is not None:
+        b += _v(2, b"".join(t.to_bytes(2, "big") + _v(2, body) for t, body in spec["extensions"]))
+    return b
+
+
+def ext_sni(host: bytes):
+    return (0, _v(2, b"\x00" + _v(2, host)))
+
+
+def ext_alpn(protos):
+    return (16, _v(2, b"".join(_v(1, p) for p in protos)))
+
+
+def spec_read_hello(body: bytes, dtls=False):
+    """Independent reader: returns dict(sni, alpn, ciphers, extensions) or raises ValueError when truncated."""
+    pos = 0
+
+    def take(n):
+        nonlocal pos
+        if pos + n > len(body):
+            raise ValueError("truncated")
+        r = body[pos:pos + n]
+        pos += n
+        return r
+
+    def vec(n):
+        return take(int.from_bytes(take(n), "big"))
+
+    take(2)
+    take(32)
+    vec(1)
+    if dtls:
+        vec(1)
+    cs = vec(2)
+    ciphers = [int.from_bytes(cs[i:i + 2], "big") for i in range(0, len(cs) - 1, 2)]
+    vec(1)
+    exts = []
+    sni = None
+    alpn = []
+    if pos < len(body):
+        eb = vec(2)
+        p = 0
+        while p < len(eb):
+            if p + 4 > len(eb):
+                raise ValueError("truncated extension")
+            t = int.from_bytes(eb[p:p + 2], "big")
+            n = int.from_bytes(eb[p + 2:p + 4], "big")
+            if p + 4 + n > len(eb):
+                raise ValueError("truncated extension body")
+            xb = eb[p + 4:p + 4 + n]
+            exts.append((t, xb))
+            p += 4 + n
+            if t == 0 and sni is None and len(xb) >= 2:
+                lst = xb[2:]
+                names = []
+                q = 0
+                while q + 3 <= len(lst):
+                    nt, ln = lst[q], int.from_bytes(lst[q + 1:q + 3], "big")
+                    names.append((nt, lst[q + 3:q + 3 + ln]))
+                    q += 3 + ln
+                if len(names) == 1 and names[0][0] == 0:
+                    sni = names[0][1]
+            if t == 16 and not alpn and len(xb) >= 2:
+                lst = xb[2:]
+                q = 0
+                while q < len(lst):
+                    ln = lst[q]
+                    alpn.append(lst[q + 1:q + 1 + ln])
+                    q += 1 + ln
+    return dict(sni=sni, alpn=alpn, ciphers=ciphers, extensions=exts)
+
+
+def hello_specs():
+    GREASE = 0x0A0A
+    base_c = [0x1301, 0x1302, 0xC02F, 0x009C]
+    hosts = [b"example.com", b"a.b-c.example.org", b"xn--mnchen-3ya.de", b"x" * 63 + b".com", b"localhost", b"under_score.example", b"EXAMPLE.Com", b"example.com."]
+    exts_sets = []
+    for h in hosts:
+        exts_sets.append([ext_sni(h)])
+    exts_sets += [
+        [],
+        None,
+        [ext_alpn([b"h2", b"http/1.1"])],
+        [ext_sni(b"example.com"), ext_alpn([b"h2"])],
+        [ext_alpn([b"http/1.1"]), ext_sni(b"example.com")],
+        [(GREASE, b""), ext_sni(b"example.com"), (0x002B, b"\x02\x03\x04"), ext_alpn([b"h3", b"h2", b"http/1.1"]), (0xFF01, b"\x00"), (0x0033, bytes(range(40))), (0x0015, b"\x00" * 30)],
+        [(0x1234, b"\xff" * 5), (0x000A, b"\x00\x02\x00\x1d"), (0x4A4A, b"\x00")],
+        [ext_sni(b"example.com"), (0x0017, b""), (0x0023, b"")],
+        [ext_alpn([b"a" * 255, b"", b"h2"])],
+        [(0, _v(2, b""))],  # empty server_name_list: no SNI
+        [(0, _v(2, b"\x00" + _v(2, b"a.example") + b"\x00" + _v(2, b"b.example")))],  # two host names (RFC 6066 forbids): no single SNI
+    ]
+    out = []
+    for i, ex in enumerate(exts_sets):
+        for ciphers, sid in ((base_c, b""), ([GREASE] + base_c + [0x00FF], bytes(32))):
+            out.append(dict(ciphers=ciphers, session_id=sid, extensions=ex))
+    out.append(dict(ciphers=[0x1301], version=b"\x03\x01", compression=b"\x01\x00", extensions=[ext_sni(b"old.example")]))
+    return out
+
+
+def tls_records(msg: bytes, cuts, version=b"\x03\x01"):
+    parts, prev = [], 0
+    for c in list(cuts) + [len(msg)]:
+        parts.append(msg[prev:c])
+        prev = c
+    return b"".join(b"\x16" + version + len(p).to_bytes(2, "big") + p for p in parts if p)
+
+
+def dtls_record(fragment: bytes, seq=0, version=b"\xfe\xfd"):
+    return b"\x16" + version + b"\x00\x00" + seq.to_bytes(6, "big") + len(fragment).to_bytes(2, "big") + fragment
+
+
+def dtls_handshake(body: bytes, frag_off=0, frag_len=None, msg_seq=0):
+    frag_len = len(body) - frag_off if frag_len is None else frag_len
+    return b"\x01" + len(body).to_bytes(3, "big") + msg_seq.to_bytes(2, "big") + frag_off.to_bytes(3, "big") + frag_len.to_bytes(3, "big") + body[frag_off:frag_off + frag_len]
+
+
+def _observe(ch):
+    return dict(sni=ch.sni, alpn=list(ch.alpn_protocols), ciphers=list(ch.cipher_suites), extensions=[(t, bytes(x)) for t, x in ch.extensions])
+
+
+def _expected(body, dtls):
+    e = spec_read_hello(body, dtls)
+    return dict(sni=None if e["sni"] is None else e["sni"].decode("ascii"), alpn=e["alpn"], ciphers=e["ciphers"], extensions=e["extensions"])
+
+
+def _feed_segments(parse, segments):
+    """emulates recv_buffer: returns ('hello', ClientHello, index of the segment that completed it) | ('none',) | ('invalid', exc)"""
+    buf = bytearray()
+    for i, seg in enumerate(segments):
+        buf.extend(seg)
+        try:
+            r = parse(buf)
+        except Exception as e:  # ValueError = rejected; anything else is reported by the caller as well
+            return ("invalid", e, i)
+        if r is not None:
+            return ("hello", r, i)
+    return ("none",)
+
+
+def _layer_observation(stream_segments, dtls):
+    """the real ClientTLSLayer: what the tls_clienthello hook sees, and conn.sni / alpn_offers"""
+    from mitmproxy.proxy.layers import tls as T
+    from props import sansio
+    ctx = sansio.context_for()
+    if dtls:
+        ctx.client.transport_protocol = "udp"
+    ctx.layers.append(object())
+    lay = T.ClientTLSLayer(ctx)
+    seen = []
+
+    def pol(hook):
+        if hook.name == "tls_clienthello":
+            seen.append(hook.data.client_hello)
+
+    d = sansio.Driver(lay, hook_policy=pol)
+    d.start()
+    for seg in stream_segments:
+        if ctx.client.state is not ctx.client.state.OPEN:
+            break
+        d.data(ctx.client, seg)
+    return seen, ctx.client.sni, list(ctx.client.alpn_offers), [c for c in d.log if type(c).__name__ == "Log"]
+
+
 def bounded(tier, seed):
+    import itertools
+    import random
+    from mitmproxy.proxy.layers import tls as T
+    from mitmproxy import tls as mtls
+    from props import sansio
+
     b = Bounded()
+    rnd = random.Random(seed)
+    quick = tier == "quick"
+    b.rule = ("ClientHellos written by an independent RFC 8446/6066/7301 writer (8 host-name forms, +-SNI, +-ALPN, GREASE, unknown/empty/large extensions, no extension block, "
+              "TLS and DTLS with cookie) x record splits (all 1-cuts, sampled 2-cuts, one byte per record) x TCP segmentations (all 1-cuts of the record stream, sampled 2-cuts, 1-byte segments), "
+              "read back through parse_client_hello with an emulated recv_buffer and through the real ClientTLSLayer, compared field by field with an independent reader; "
+              "totality on all strings <= 3 over 12 byte values, truncations and byte mutations of valid hellos; real OpenSSL client hellos (TLS, DTLS); distinct = (hello, split, segmentation); non-trivial = hello with extensions")
+    b.bound = "hello bodies <= 450 bytes; <= 2 record cuts and <= 2 segment cuts (+ all-singletons); %d mutations" % (3000 if quick else 100000)
+    specs = hello_specs()
+    # ---- TLS: equality with the independent reader under every split
+    for si, spec in enumerate(specs):
+        body = build_hello_body(spec)
+        msg = b"\x01" + len(body).to_bytes(3, "big") + body
+        want = _expected(body, False)
+        n = len(msg)
+        cutsets = [()] + [(i,) for i in range(1, n)] + [tuple(range(1, n))]
+        two = [(i, j) for i in range(1, n) for j in range(i + 1, n)]
+        rnd.shuffle(two)
+        cutsets += two[: (6 if quick else 200)]
+        if quick:
+            ones = [(i,) for i in range(1, n)]
+            rnd.shuffle(ones)
+            cutsets = [()] + ones[:25] + [(1,), (3,), (4,), (5,), (n - 1,)] + [tuple(range(1, n))] + two[:6]
+        for cuts in cutsets:
+            stream = tls_records(msg, cuts)
+            inp = {"hello": si, "record_cuts": list(cuts)[:8], "n_records": len(cuts) + 1}
+            # whole stream at once
+            try:
+                ch = T.parse_client_hello(stream)
+            except Exception as e:
+                b.fail("tls.valid_hello_accepted", inp, f"raised {type(e).__name__}: {e}")
+                continue
+            b.case((si, cuts, "whole"), nontrivial=bool(spec.get("extensions")))
+            if ch is None:
+                b.fail("tls.valid_hello_complete", inp, "reported incomplete")
+                continue
+            got = _observe(ch)
+            for f in ("sni", "alpn", "ciphers", "extensions"):
+                if got[f] != want[f]:
+                    b.fail(f"tls.equals_independent_reader.{f}", inp, f"got {got[f]!r} want {want[f]!r}")
+            # segmentations of the record stream (bounded number per record split)
+            m = len(stream)
+            segsets = [[stream[:i], stream[i:]] for i in (range(1, m) if (not quick or len(cuts) <= 1 and si % 4 == 0) else rnd.sample(range(1, m), min(6, m - 1)))]
+            segsets.append([stream[i:i + 1] for i in range(m)] if (not quick or si % 5 == 0 and len(cuts) <= 2) else [stream[:m // 3], stream[m // 3:2 * m // 3], stream[2 * m // 3:]])
+            for _ in range(2 if quick else 10):
+                i, j = sorted(rnd.sample(range(1, m), 2))
+                segsets.append([stream[:i], stream[i:j], stream[j:]])
+            for segs in segsets:
+                r = _feed_segments(T.parse_client_hello, segs + [b"trailing bytes of the next flight"])
+                b.case((si, cuts, tuple(len(x) for x in segs)[:6], len(segs)), nontrivial=bool(spec.get("extensions")))
+                inp2 = dict(inp, segments=[len(x) for x in segs][:10])
+                if r[0] != "hello":
+                    b.fail("tls.segmentation.valid_hello_found", inp2, repr(r)[:200])
+                    continue
+                if r[2] != len(segs) - 1:
+                    b.fail("tls.segmentation.complete_exactly_at_last_byte", inp2, f"completed after segment {r[2]} of {len(segs)}")
+                if _observe(r[1]) != got:
+                    b.fail("tls.segmentation.same_result", inp2, f"{_observe(r[1])!r} != {got!r}")
+        # through the real layer (hook observation), a few segmentations
+        stream = tls_records(msg, (5, 9) if n > 9 else ())
+        for segs in ([stream], [stream[:7], stream[7:]], [stream[i:i + 1] for i in range(len(stream))] if si % 3 == 0 else [stream[:1], stream[1:]]):
+            b.case((si, "layer", len(segs)))
+            inp = {"hello": si, "segments": len(segs)}
+            try:
+                seen, sni, offers, logs = _layer_observation(segs, False)
+            except Exception as e:
+                b.fail("layer.total", inp, f"{type(e).__name__}: {e}")
+                continue
+            if len(seen) != 1:
+                b.fail("layer.clienthello_hook_once", inp, f"{len(seen)} hooks; logs={[l.message for l in logs]}")
+                continue
+            if _observe(seen[0]) != want:
+                b.fail("layer.hook_sees_independent_reader_result", inp, f"{_observe(seen[0])!r} != {want!r}")
+            if sni != want["sni"] or offers != want["alpn"]:
+                b.fail("layer.conn_sni_alpn", inp, f"sni={sni!r} offers={offers!r}")
+    # ---- DTLS (records with the DTLS 1.2 version; one handshake fragment per record)
+    for si, spec in enumerate(specs):
+        for cookie in (b"", bytes(range(20))):
+            spec2 = dict(spec, cookie=cookie, version=b"\xfe\xfd")
+            body = build_hello_body(spec2, dtls=True)
+            want = _expected(body, True)
+            stream = dtls_record(dtls_handshake(body))
+            inp = {"hello": si, "cookie": len(cookie)}
+            b.case((si, "dtls", len(cookie)), nontrivial=bool(spec.get("extensions")))
+            try:
+                ch = T.dtls_parse_client_hello(stream)
+                got = _observe(ch) if ch is not None else None
+            except Exception as e:
+                b.fail("dtls.valid_hello_accepted", inp, f"raised {type(e).__name__}: {e}")
+                continue
+            if got != want:
+                b.fail("dtls.equals_independent_reader", inp, f"got {got!r} want {want!r}")
+            # datagram truncation is reported as incomplete, never as another failure
+            for cut in range(0, len(stream), 7):
+                try:
+                    r = T.dtls_parse_client_hello(stream[:cut])
+                    if r is not None:
+                        b.fail("dtls.truncated_is_incomplete", dict(inp, cut=cut), "returned a hello")
+                except ValueError:
+                    pass
+                except Exception as e:
+                    b.fail("dtls.total", dict(inp, cut=cut), f"{type(e).__name__}: {e}")
+            # record version of DTLS 1.0 (what OpenSSL clients put on their first flight)
+            s10 = dtls_record(dtls_handshake(body), version=b"\xfe\xff")
+            try:
+                ch = T.dtls_parse_client_hello(s10)
+                if ch is None or _observe(ch) != want:
+                    b.fail("dtls.record_version_1_0[KF-C13-1]", inp, "not parsed")
+            except ValueError as e:
+                b.fail("dtls.record_version_1_0[KF-C13-1]", inp, f"ValueError: {e}")
+            # handshake fragmentation (RFC 6347 §4.2.3): two fragments, each in its own record
+            if len(body) > 40:
+                k = len(body) // 2
+                frag = dtls_record(dtls_handshake(body, 0, k), 0) + dtls_record(dtls_handshake(body, k, len(body) - k), 1)
+                try:
+                    ch = T.dtls_parse_client_hello(frag)
+                    if ch is None or _observe(ch) != want:
+                        b.fail("dtls.fragmented_hello[KF-C13-2]", inp, f"got {None if ch is None else _observe(ch)!r}")
+                except ValueError as e:
+                    b.fail("dtls.fragmented_hello[KF-C13-2]", inp, f"ValueError: {e}")
+    # ---- real OpenSSL clients
+    from OpenSSL import SSL
+    for dtls in (False, True):
+        for sni, alpn in ((b"example.mitmproxy.org", [b"h2", b"http/1.1"]), (None, None), (b"a.example", None), (None, [b"http/1.1"])):
+            c = SSL.Connection(SSL.Context(SSL.DTLS_CLIENT_METHOD if dtls else SSL.TLS_CLIENT_METHOD))
+            c.set_connect_state()
+            if sni:
+                c.set_tlsext_host_name(sni)
+            if alpn:
+                c.set_alpn_protos(alpn)
+            try:
+                c.do_handshake()
+            except SSL.WantReadError:
+                pass
+            flight = c.bio_read(65535)
+            inp = {"openssl": "dtls" if dtls else "tls", "sni": sni and sni.decode(), "alpn": alpn and [a.decode() for a in alpn]}
+            b.case(("openssl", dtls, sni, tuple(alpn or ())))
+            check = "openssl.dtls_client_hello[KF-C13-1]" if dtls else "openssl.tls_client_hello"
+            try:
+                ch = (T.dtls_parse_client_hello if dtls else T.parse_client_hello)(flight)
+            except ValueError as e:
+                b.fail(check, inp, f"ValueError: {e}")
+                continue
+            if ch is None or ch.sni != (sni.decode() if sni else None) or ch.alpn_protocols != (alpn or []):
+                b.fail(check, inp, f"got {ch!r}")
+            elif not dtls:
+                hdr = 5
+                want = _expected(flight[hdr + 4:], False)
+                if _observe(ch) != want:
+                    b.fail("openssl.tls_equals_independent_reader", inp, f"{_observe(ch)!r} != {want!r}")
+    # ---- totality
+    def total(fn, data, tag, inp):
+        try:
+            r = fn(data)
+        except ValueError:
+            return
+        except Exception as e:
+            b.fail(tag + ".raises_only_ValueError", inp, f"{type(e).__name__}: {e}")
+            return
+        if r is not None:
+            try:
+                _observe(r)
+                repr(r)
+            except Exception as e:
+                b.fail(tag + ".accessors_total", inp, f"{type(e).__name__}: {e}")
+
+    alpha = [0x00, 0x01, 0x03, 0x04, 0x05, 0x16, 0x17, 0xFD, 0xFE, 0xFF, 0x10, 0x80]
+    for n in range(0, 4):
+        for tup in itertools.product(alpha, repeat=n):
+            d = bytes(tup)
+            b.case(("short", d), nontrivial=False)
+            total(T.parse_client_hello, d, "tls.total", d.hex())
+            total(T.dtls_parse_client_hello, d, "dtls.total", d.hex())
+            total(T.parse_client_hello, b"\x16\x03\x03\x00" + bytes([4 + n]) + b"\x01\x00\x00" + bytes([n]) + d, "tls.total", "hs:" + d.hex())
+    seeds = []
+    for spec in specs:
+        body = build_hello_body(spec)
+        seeds.append((False, tls_records(b"\x01" + len(body).to_bytes(3, "big") + body, ())))
+        seeds.append((True, dtls_record(dtls_handshake(build_hello_body(dict(spec, version=b"\xfe\xfd"), dtls=True)))))
+    nmut = 3000 if quick else 100000
+    for k in range(nmut):
+        dtls, base = seeds[k % len(seeds)]
+        d = bytearray(base)
+        for _ in range(rnd.choice((1, 1, 2, 3))):
+            op = rnd.random()
+            pos = rnd.randrange(len(d))
+            if op < 0.5:
+                d[pos] = rnd.choice((0, 1, 0xFF, rnd.randrange(256), d[pos] ^ 0x80))
+            elif op < 0.7:
+                del d[pos:pos + rnd.choice((1, 2, 5))]
+            elif op < 0.85:
+                d[pos:pos] = bytes(rnd.randrange(256) for _ in range(rnd.choice((1, 2, 4))))
+            else:
+                d = d[:pos]
+            if not d:
+                d = bytearray(b"\x16")
+        # keep the record/handshake lengths consistent half of the time so that the mutation reaches the kaitai parser
+        if k % 2 == 0:
+            H = 13 if dtls else 5
+            if len(d) > H + (12 if dtls else 4):
+                d[H - 2:H] = (len(d) - H).to_bytes(2, "big")
+                if dtls:
+                    d[H + 9:H + 12] = (len(d) - H - 12).to_bytes(3, "big")
+                    d[0:3] = b"\x16\xfe\xfd"
+                else:
+                    d[H + 1:H + 4] = (len(d) - H - 4).to_bytes(3, "big")
+                    d[0:3] = b"\x16\x03\x03"
+        b.case(("mut", k), nontrivial=True)
+        total(T.dtls_parse_client_hello if dtls else T.parse_client_hello, bytes(d), "dtls.total" if dtls else "tls.total", bytes(d).hex())
+        # the trusted kaitai contract directly: only EOFError
+        try:
+            mtls.ClientHello(bytes(d[(25 if dtls else 9):]), dtls=dtls)
+        except EOFError:
+            pass
+        except Exception as e:
+            b.fail("kaitai.raises_only_EOFError", bytes(d).hex(), f"{type(e).__name__}: {e}")
     return b
